@@ -180,7 +180,7 @@ impl<T: Sync + Send + 'static> Worker<T> {
             self.reset_matches();
             self.process_new_items_trivial();
             #[cfg(nucleo_verif)]
-            crate::verif::point("run:exit", 0);
+            crate::verif::point("run:done", 0);
             return;
         }
 
@@ -267,7 +267,7 @@ impl<T: Sync + Send + 'static> Worker<T> {
                 .truncate(self.matches.len() - take(unmatched.get_mut()) as usize);
         }
         #[cfg(nucleo_verif)]
-        crate::verif::point("run:exit", 0);
+        crate::verif::point("run:done", 0);
     }
 
     fn reset_matches(&mut self) {
